@@ -278,6 +278,10 @@ def run(repo: Repo, rep: Report, tier: str) -> None:
     from .c18 import commit_rule
 
     commit_rule(repo, rep, "C14.R8")
+    from .c20 import fresh_generation_rule
+
+    fresh_generation_rule(repo, rep, "C14.R9")
+
 
 
 
